@@ -12,6 +12,7 @@ import (
 	"regexp"
 	"strconv"
 	"strings"
+	"sync"
 	"time"
 )
 
@@ -41,39 +42,45 @@ func runBounded(prop, tier string) []*BoundedResult {
 		return nil
 	}
 	var out []*BoundedResult
+	var wg sync.WaitGroup
 	for _, sp := range specs {
 		if sp.Property != prop {
 			continue
 		}
 		r := &BoundedResult{Spec: sp}
 		out = append(out, r)
-		start := time.Now()
-		ov := map[string]map[string]string{"Replace": {}}
-		for _, f := range sp.Files {
-			ov["Replace"][filepath.Join(repoDir(), sp.Pkg, "zz_verif_"+f)] = filepath.Join(verifDir, "bounded", f)
-		}
-		ovFile := filepath.Join(scratchDir(), "overlay_"+strings.ReplaceAll(sp.Name, ":", "_")+".json")
-		b, _ := json.Marshal(ov)
-		os.WriteFile(ovFile, b, 0o644)
-		cmd := exec.Command("go", "test", "-overlay", ovFile, "-v", "-vet=off", "-count=1", "-timeout", "1200s", "-run", sp.Run, "./"+sp.Pkg+"/")
-		cmd.Dir = repoDir()
-		cmd.Env = append(os.Environ(), "GOFLAGS=-mod=mod", "GOPROXY=off", "GOSUMDB=off", "GOTOOLCHAIN=local", "VERIF_TIER="+tier)
-		outb, err := cmd.CombinedOutput()
-		r.Secs = time.Since(start).Seconds()
-		seenOK := false
-		for _, line := range strings.Split(string(outb), "\n") {
-			if m := boundedOK.FindStringSubmatch(line); m != nil {
-				seenOK = true
-				r.Cases, _ = strconv.Atoi(m[2])
-				r.Failing, _ = strconv.Atoi(m[3])
+		wg.Add(1)
+		go func(sp BoundedSpec, r *BoundedResult) {
+			defer wg.Done()
+			start := time.Now()
+			ov := map[string]map[string]string{"Replace": {}}
+			for _, f := range sp.Files {
+				ov["Replace"][filepath.Join(repoDir(), sp.Pkg, "zz_verif_"+f)] = filepath.Join(verifDir, "bounded", f)
 			}
-			if strings.HasPrefix(line, "BOUNDED-VIOLATION ") {
-				r.Violations = append(r.Violations, strings.TrimPrefix(line, "BOUNDED-VIOLATION "))
+			ovFile := filepath.Join(scratchDir(), "overlay_"+strings.ReplaceAll(sp.Name, ":", "_")+".json")
+			b, _ := json.Marshal(ov)
+			os.WriteFile(ovFile, b, 0o644)
+			cmd := exec.Command("go", "test", "-overlay", ovFile, "-v", "-vet=off", "-count=1", "-timeout", "1200s", "-run", sp.Run, "./"+sp.Pkg+"/")
+			cmd.Dir = repoDir()
+			cmd.Env = append(os.Environ(), "GOFLAGS=-mod=mod", "GOPROXY=off", "GOSUMDB=off", "GOTOOLCHAIN=local", "VERIF_TIER="+tier)
+			outb, err := cmd.CombinedOutput()
+			r.Secs = time.Since(start).Seconds()
+			seenOK := false
+			for _, line := range strings.Split(string(outb), "\n") {
+				if m := boundedOK.FindStringSubmatch(line); m != nil {
+					seenOK = true
+					r.Cases, _ = strconv.Atoi(m[2])
+					r.Failing, _ = strconv.Atoi(m[3])
+				}
+				if strings.HasPrefix(line, "BOUNDED-VIOLATION ") {
+					r.Violations = append(r.Violations, strings.TrimPrefix(line, "BOUNDED-VIOLATION "))
+				}
 			}
-		}
-		if !seenOK {
-			r.Err = fmt.Sprintf("bounded test did not report (err=%v): %s", err, truncate(string(outb), 2000))
-		}
+			if !seenOK {
+				r.Err = fmt.Sprintf("bounded test did not report (err=%v): %s", err, truncate(string(outb), 2000))
+			}
+		}(sp, r)
 	}
+	wg.Wait()
 	return out
 }
